@@ -56,6 +56,9 @@ def _space(k):
     r.add_float_param('rlog', 0.5, 64.0, scale_type=vz.ScaleType.REVERSE_LOG)
     r.add_float_param('tiny', 1.0, 1.0 + 1e-9)
     r.add_float_param('huge', -1e30, 1e30)
+    r.add_float_param('rlog2', 0.7, 13.3, scale_type=vz.ScaleType.REVERSE_LOG)      # bounds that are not dyadic
+    r.add_float_param('log2', 0.3, 17.9, scale_type=vz.ScaleType.LOG)
+    r.add_float_param('lin2', -3.7, 1.1)
   elif k == 4:      # purely boolean
     r.add_bool_param('b1')
     r.add_bool_param('b2')
